@@ -1,24 +1,38 @@
-"""Suite `notifcache` (C07, C10): the cache-coherence / subscription protocol of the real
-`SessionManager` (`limited_history`, `_notify_sessions`) and real `ElectrumX` sessions
-(`hashX_subscribe`, `_notify_inner`, `confirmed_and_unconfirmed_history`) against `EV.System`.
+"""Suite `notifcache` (C07, C10): the status / history-cache / tip coherence protocol of the real
+`SessionManager` (`limited_history`, `_notify_sessions`, `_refresh_hsub_results`) and real `ElectrumX`
+sessions (`hashX_subscribe`, `unsubscribe_hashX`, `address_status` incl. `mempool_statuses`, both
+loops of `_notify_inner`, `headers_subscribe`, `confirmed_and_unconfirmed_history`) against `EV.System`.
 
-The DB is a fake whose history reads *suspend* (as `DB.limited_history` does while its worker
-thread runs); the harness decides when each read is performed (which DB state it sees) and when its
-result reaches the coroutine.  Events:
-  CH x        the true history of script hash x changes (a block / reorg touching it is flushed);
-              x joins the carrier set (what Notifications will hand to _notify_sessions)
-  NT xs       _notify_sessions(height, xs) starts (xs leave the carrier set)
-  SUB s x     session s subscribes to x          GH s x   session s asks get_history(x)
-  RD i        the i-th waiting read is performed by its worker now
-  RF i        the i-th performed read's result reaches its coroutine
-After every event the cache, every session's subscriptions and last-held statuses, and the waiting
-reads are compared with the model; the direct oracle judges, in every state without work in flight,
-"every held status and every cached history is current".
+The DB is a fake whose history reads AND header reads *suspend* (as `DB.limited_history` /
+`DB.raw_header` do while their worker thread runs); the harness decides when each read is performed
+(which DB state it sees) and when its result reaches the coroutine.  The mempool is a fake whose
+`transaction_summaries` returns real summaries (never suspends, like `MemPool`'s).  Events:
+  CH x        the confirmed history of script hash x changes (a block / back-out touching it is
+              flushed); x joins the carrier set (what Notifications hands to _notify_sessions)
+  MP x m      the mempool part of x becomes m (0 = none; else one tx whose id depends on m, with
+              has_unconfirmed_inputs = m odd); carried
+  FL x m      the unconfirmed-inputs flag of x's mempool tx flips (a parent entered / left the
+              mempool): NOT carried; the environment owes a height-changing notification
+  ADV d / BK / RS   the DB gains a block with header d / loses its tip / _reorg_count += 1
+  NT h xs     _notify_sessions(h, xs) starts (xs leave the carrier set)
+  SUB s x / UNS s x / GH s x / HS s / CLOSE s    subscribe, unsubscribe, get_history,
+              headers.subscribe, connection lost (session removed from the manager)
+  EVICT x     the LRU history cache drops x
+  RD i / RF i   the i-th waiting history read is performed by its worker / the i-th performed
+              read's result reaches its coroutine            HD i / HF i   same for header reads
+After every event the whole observable state (cache, per session: subscriptions, mempool_statuses in
+dict order, last-held statuses, last-held header, waiting reads, hsub_results, notified_height) and
+the harness's ghost sets are compared with the model.  The direct oracle judges, independently of
+the model, in every state in which the environment owes nothing and nothing is in flight: every
+status a connected client holds for a subscribed script hash is the protocol status of the fake
+DB + mempool, every cached history is current, hsub_results and every headers-subscriber's last
+header are the tip; and, at every moment, every header a client holds is one the DB has held.
 """
 import asyncio
 import hashlib
 import itertools
 import os
+import re
 from types import SimpleNamespace
 
 from harness.common import SuiteResult, rng_for, run_evdrv
@@ -26,6 +40,7 @@ from harness.world.realindex import make_env
 from harness.world.server import FakeTransport
 
 HASHXS = [bytes([i]) * 11 for i in range(1, 4)]
+MAXM = 6
 
 
 def alias_of(hx):
@@ -33,14 +48,20 @@ def alias_of(hx):
     return (hx + bytes(21))[::-1].hex()
 
 
+def header_of(d):
+    return bytes([d % 256]) * 80
+
+
 class FakeDB:
     DBError = type('DBError', (Exception,), {})
 
     def __init__(self, loop):
         self.loop = loop
-        self.state = SimpleNamespace(height=10)
-        self.hist = {hx: [] for hx in HASHXS}       # true histories
-        self.reads = []      # waiting / performed reads: dict(hx, fut, value)
+        self.state = SimpleNamespace(height=0)
+        self.chain = [0]                            # header ids; index = height
+        self.hist = {hx: [] for hx in HASHXS}       # true confirmed histories
+        self.reads = []      # waiting / performed history reads: dict(hx, fut, value)
+        self.hreads = []     # waiting / performed header reads: dict(h, fut, value) value: None | 'E' | d
 
     async def limited_history(self, hashX, *, limit=1000):
         fut = self.loop.create_future()
@@ -48,7 +69,9 @@ class FakeDB:
         return await fut
 
     async def raw_header(self, height):
-        return bytes(80)
+        fut = self.loop.create_future()
+        self.hreads.append({'h': height, 'fut': fut, 'value': None})
+        return await fut
 
     def change(self, hx):
         n = len(self.hist[hx])
@@ -65,13 +88,37 @@ class OrderedTouched(set):
 
 
 class FakeMempool:
+    """`transaction_summaries` as `MemPool`'s: an async def that never suspends."""
+
+    def __init__(self):
+        self.mem = {hx: 0 for hx in HASHXS}
+
+    @staticmethod
+    def summaries(hx, m):
+        if not m:
+            return []
+        return [SimpleNamespace(hash=hashlib.sha256(hx + b'mp' + bytes([m // 2])).digest(), fee=0,
+                                has_unconfirmed_inputs=bool(m % 2))]
+
     async def transaction_summaries(self, hashX):
-        return []
+        return self.summaries(hashX, self.mem[hashX])
+
+
+_pylru_patched = [False]
+
+
+def status_of(hist, hx, c, m):
+    from electrumx.lib.hash import hash_to_hex_str
+    s = ''.join(f'{hash_to_hex_str(t)}:{h:d}:' for t, h in hist[:c])
+    s += ''.join(f'{hash_to_hex_str(tx.hash)}:{-tx.has_unconfirmed_inputs:d}:' for tx in FakeMempool.summaries(hx, m))
+    return hashlib.sha256(s.encode()).hexdigest() if s else None
 
 
 class Real:
     def __init__(self, nsessions):
         import electrumx.server.session as sessmod
+        import pylru
+        self.sessmod = sessmod
         self.loop = asyncio.new_event_loop()
         asyncio.set_event_loop(self.loop)
         d = f'/dev/shm/evnc_{os.getpid()}'
@@ -79,58 +126,125 @@ class Real:
         env = make_env(d, 10)
         self.db = FakeDB(self.loop)
         bp = SimpleNamespace(backed_up_event=asyncio.Event())
-        daemon = SimpleNamespace(cached_height=lambda: 10, logged_url=lambda: 'x')
-        self.mgr = sessmod.SessionManager(env, self.db, bp, daemon, FakeMempool(), asyncio.Event())
-        self.mgr.notified_height = 10
-        self.mgr.hsub_results = {'hex': '', 'height': 10}
+        daemon = SimpleNamespace(cached_height=lambda: 0, logged_url=lambda: 'x')
+        self.mp = FakeMempool()
+        real_lru = pylru.lrucache
+        sessmod.pylru.lrucache = lambda n: real_lru(16)      # 1000 nodes each cost 1 ms per case
+        try:
+            self.mgr = sessmod.SessionManager(env, self.db, bp, daemon, self.mp, asyncio.Event())
+        finally:
+            sessmod.pylru.lrucache = real_lru
+        # the state Notifications.start() leaves: notified at height 0
+        self.mgr.notified_height = 0
+        self.mgr.hsub_results = {'hex': header_of(0).hex(), 'height': 0}
         self.sessions = []
         for i in range(nsessions):
             t = FakeTransport(i)
             s = sessmod.ElectrumX(self.mgr, self.db, self.mgr.mempool, self.mgr.peer_mgr, 'TCP', t)
             s.rec = t
             self.sessions.append(s)
-        self.carrier = set()
         self.tasks = []
         self.held = [dict() for _ in range(nsessions)]    # session -> alias -> status
-        self.status_version = {}
+        self.held_hdr = [None] * nsessions
+        # ghost sets (what the environment owes)
+        self.carrier = set()
+        self.flipped = set()
+        self.lost = []
+        self.tip_done = True
+        self.pending = {}          # notify task -> (xs, flips)
+        self.seen = {(0, header_of(0).hex())}
+        self.failed = False
+        self.hdr_not_seen = None
+        self._status_cache = {}
 
     def spin(self):
-        for _ in range(30):
+        for _ in range(200):
             self.loop.run_until_complete(asyncio.sleep(0))
+            if len(self.loop._ready) == 0:
+                break
         # absorb notifications written since last time
         for i, s in enumerate(self.sessions):
             for m in s.rec.sent:
                 if m.get('method') == 'blockchain.scripthash.subscribe':
                     self.held[i][m['params'][0]] = m['params'][1]
+                elif m.get('method') == 'blockchain.headers.subscribe':
+                    self.note_hdr(i, m['params'][0])
             s.rec.sent.clear()
         self.tasks = [t for t in self.tasks if not t.done() or self._reap(t)]
 
+    def note_hdr(self, i, r):
+        self.held_hdr[i] = (r['height'], r['hex'])
+        if (r['height'], r['hex']) not in self.seen and self.hdr_not_seen is None:
+            self.hdr_not_seen = f'session {i} was sent header {r["hex"][:2]} at height {r["height"]}, which the DB never held'
+
     def _reap(self, t):
-        t.result()
+        from aiorpcx import RPCError
+        try:
+            t.result()
+        except RPCError:
+            # _notify_sessions raised out of _refresh_hsub_results: the notification is lost
+            xs, flips = self.pending.pop(t, ((), ()))
+            self.lost += list(xs) + list(flips)
+            self.failed = True
+            return False
+        self.pending.pop(t, None)
         return False
 
-    def status_of_version(self, hx, n):
-        from electrumx.lib.hash import hash_to_hex_str
-        hist = self.db.hist[hx][:n]
-        s = ''.join(f'{hash_to_hex_str(t)}:{h:d}:' for t, h in hist)
-        return hashlib.sha256(s.encode()).hexdigest() if s else None
+    # -- statuses as (conf version, mempool part)
+    def decode(self, hx, status):
+        hist = self.db.hist[hx]
+        key = (hx, len(hist))
+        tab = self._status_cache.get(key)
+        if tab is None:
+            tab = {status_of(hist, hx, c, m): (c, m) for c in range(len(hist) + 1) for m in range(MAXM + 1)}
+            self._status_cache[key] = tab
+        return tab.get(status, (-1, -1))
 
-    def version_of_status(self, hx, status):
-        for n in range(len(self.db.hist[hx]) + 1):
-            if self.status_of_version(hx, n) == status:
-                return n
-        return -1
+    def true_status(self, hx):
+        return status_of(self.db.hist[hx], hx, len(self.db.hist[hx]), self.mp.mem[hx])
+
+    def tip(self):
+        return (self.db.state.height, header_of(self.db.chain[-1]).hex())
+
+    def good_read(self, r):
+        return r['h'] == self.db.state.height and r['value'] in (None, self.db.chain[-1])
 
     def ev(self, e):
         k = e[0]
         if k == 'CH':
-            hx = HASHXS[e[1]]
-            self.db.change(hx)
+            self.db.change(HASHXS[e[1]])
             self.carrier.add(e[1])
+        elif k == 'MP':
+            self.mp.mem[HASHXS[e[1]]] = e[2]
+            self.carrier.add(e[1])
+        elif k == 'FL':
+            if self.mp.mem[HASHXS[e[1]]] != 0 and e[2] != 0:
+                self.mp.mem[HASHXS[e[1]]] = e[2]
+                self.flipped.add(e[1])
+        elif k == 'ADV':
+            self.db.chain.append(e[1])
+            self.db.state.height += 1
+            self.seen.add(self.tip())
+            self.tip_done = False
+        elif k == 'BK':
+            if len(self.db.chain) > 1:
+                self.db.chain.pop()
+                self.db.state.height -= 1
+                self.tip_done = False
+        elif k == 'RS':
+            self.mgr._reorg_count += 1
         elif k == 'NT':
-            xs = [x for x in e[1] if x in self.carrier]
+            h, xs = e[1], e[2]
+            hc = h != self.mgr.notified_height or self.mgr._reorg_count != self.mgr._notified_reorg_count
             self.carrier -= set(xs)
-            self.tasks.append(self.loop.create_task(self.mgr._notify_sessions(10, OrderedTouched(HASHXS[x] for x in xs))))
+            flips = ()
+            if hc:
+                flips = sorted(self.flipped)
+                self.flipped = set()
+                self.tip_done = self.db.state.height <= h and all(self.good_read(r) for r in self.db.hreads)
+            t = self.loop.create_task(self.mgr._notify_sessions(h, OrderedTouched(HASHXS[x] for x in xs)))
+            self.pending[t] = (list(xs), flips)
+            self.tasks.append(t)
         elif k == 'SUB':
             s, x = e[1], e[2]
             sess = self.sessions[s]
@@ -139,9 +253,22 @@ class Real:
                 r = await sess.hashX_subscribe(HASHXS[x], alias_of(HASHXS[x]))
                 self.held[s][alias_of(HASHXS[x])] = r
             self.tasks.append(self.loop.create_task(sub()))
+        elif k == 'UNS':
+            self.loop.run_until_complete(self.sessions[e[1]].scripthash_unsubscribe(alias_of(HASHXS[e[2]])))
+        elif k == 'CLOSE':
+            sess = self.sessions[e[1]]
+            if sess in self.mgr.sessions:
+                sess.rec.closing = True
+                self.mgr.remove_session(sess)      # what SessionBase.connection_lost does
+        elif k == 'HS':
+            r = self.loop.run_until_complete(self.sessions[e[1]].headers_subscribe())
+            self.note_hdr(e[1], r)
         elif k == 'GH':
             s, x = e[1], e[2]
             self.tasks.append(self.loop.create_task(self.sessions[s].confirmed_and_unconfirmed_history(HASHXS[x])))
+        elif k == 'EVICT':
+            if HASHXS[e[1]] in self.mgr._history_cache:
+                del self.mgr._history_cache[HASHXS[e[1]]]
         elif k == 'RD':
             waiting = [r for r in self.db.reads if r['value'] is None]
             if e[1] < len(waiting):
@@ -153,6 +280,20 @@ class Real:
                 r = done[e[1]]
                 self.db.reads.remove(r)
                 r['fut'].set_result(r['value'])
+        elif k == 'HD':
+            waiting = [r for r in self.db.hreads if r['value'] is None]
+            if e[1] < len(waiting):
+                r = waiting[e[1]]
+                r['value'] = self.db.chain[r['h']] if r['h'] <= self.db.state.height else 'E'
+        elif k == 'HF':
+            done = [r for r in self.db.hreads if r['value'] is not None]
+            if e[1] < len(done):
+                r = done[e[1]]
+                self.db.hreads.remove(r)
+                if r['value'] == 'E':
+                    r['fut'].set_exception(IndexError(f'height {r["h"]} out of range'))
+                else:
+                    r['fut'].set_result(header_of(r['value']))
         self.spin()
 
     def show(self):
@@ -161,37 +302,61 @@ class Real:
             if hx in self.mgr._history_cache:
                 cache.append(f'{i}:{len(self.mgr._history_cache[hx])}')
         sess = []
+
+        def st(hx, status):
+            c, m = self.decode(hx, status)
+            return f'{HASHXS.index(hx)}:{c}.{m}'
         for si, s in enumerate(self.sessions):
             subs = sorted(HASHXS.index(hx) for hx in s.hashX_subs)
-            held = []
-            for i, hx in enumerate(HASHXS):
-                a = alias_of(hx)
-                if a in self.held[si]:
-                    held.append(f'{i}:{self.version_of_status(hx, self.held[si][a])}')
-            sess.append('s' + ','.join(map(str, subs)) + ' h' + ','.join(held))
+            ms = [st(hx, v) for hx, v in s.mempool_statuses.items()]
+            held = [st(hx, self.held[si][alias_of(hx)]) for hx in HASHXS if alias_of(hx) in self.held[si]]
+            hh = self.held_hdr[si]
+            sess.append('s' + ','.join(map(str, subs)) + ' m' + ','.join(ms) + ' h' + ','.join(held)
+                        + f' H{int(s.subscribe_headers)}:' + ('-' if hh is None else f'{hh[0]}.{int(hh[1][:2], 16)}')
+                        + f' A{int(s in self.mgr.sessions)}')
         reads = ' '.join(f'{HASHXS.index(r["hx"])}:{"?" if r["value"] is None else len(r["value"])}' for r in self.db.reads)
-        cur = ','.join(str(len(self.db.hist[hx])) for hx in HASHXS)
-        return (f'cur {cur} | carrier {",".join(map(str, sorted(self.carrier)))} | cache {" ".join(cache)} | '
-                + ' ; '.join(sess) + f' | reads {reads}')
+        hreads = ' '.join(f'{r["h"]}:{"?" if r["value"] is None else r["value"]}' for r in self.db.hreads)
+        conf = ','.join(str(len(self.db.hist[hx])) for hx in HASHXS)
+        mem = ','.join(str(self.mp.mem[hx]) for hx in HASHXS)
+        hs = self.mgr.hsub_results
+        return (f'conf {conf} | mem {mem} | chain {",".join(map(str, self.db.chain))} | cache {" ".join(cache)} | '
+                + ' ; '.join(sess) + f' | reads {reads} | hreads {hreads} | '
+                + f'hsub {hs["height"]}.{int(hs["hex"][:2], 16)} nh {self.mgr.notified_height}'
+                + f' # carrier {",".join(map(str, sorted(self.carrier)))} flipped {",".join(map(str, sorted(self.flipped)))}'
+                + f' lost {",".join(map(str, self.lost))} tipDone {int(self.tip_done)}')
 
     def quiet(self):
-        return not self.carrier and not self.db.reads and not self.tasks
+        """The environment owes nothing and nothing is in flight (the model's `Quiet`)."""
+        return (not self.carrier and not self.flipped and not self.lost and not self.failed and self.tip_done
+                and not self.db.reads and not self.db.hreads and not self.tasks)
 
     def stale(self):
-        """In a state with nothing in flight: everything held / cached must be current."""
+        """In a quiet state: everything held / cached must be current.  Returns (text, shape) pairs."""
         out = []
         for i, hx in enumerate(HASHXS):
             if hx in self.mgr._history_cache and len(self.mgr._history_cache[hx]) != len(self.db.hist[hx]):
-                out.append(f'history cache of script hash {i} holds {len(self.mgr._history_cache[hx])} entries, '
-                           f'the DB has {len(self.db.hist[hx])}')
+                out.append((f'history cache of script hash {i} holds {len(self.mgr._history_cache[hx])} entries, '
+                            f'the DB has {len(self.db.hist[hx])}', 'cache'))
+        tip = self.tip()
+        hs = self.mgr.hsub_results
+        if (hs['height'], hs['hex']) != tip:
+            out.append((f'hsub_results is height {hs["height"]} header {hs["hex"][:2]}, the tip is height {tip[0]} '
+                        f'header {tip[1][:2]}', 'tip'))
         for si, s in enumerate(self.sessions):
+            if s not in self.mgr.sessions:
+                continue            # the client is gone
+            if s.subscribe_headers and self.held_hdr[si] != tip:
+                out.append((f'session {si} last header is {self.held_hdr[si]}, the tip is {tip}', 'tip'))
             for hx in s.hashX_subs:
                 a = alias_of(hx)
-                cur = self.status_of_version(hx, len(self.db.hist[hx]))
+                cur = self.true_status(hx)
                 if self.held[si].get(a, 'missing') != cur:
-                    out.append(f'session {si} holds the status of version '
-                               f'{self.version_of_status(hx, self.held[si].get(a))} for script hash '
-                               f'{HASHXS.index(hx)}, current is version {len(self.db.hist[hx])}')
+                    # shape of the stale-copy comparison: the status computed last (stored in
+                    # mempool_statuses) is the current one but was never sent
+                    shape = 'suppressed' if s.mempool_statuses.get(hx) == cur else 'status'
+                    out.append((f'session {si} holds status {self.decode(hx, self.held[si].get(a))} (confirmed version, '
+                                f'mempool part) for script hash {HASHXS.index(hx)}, the protocol status is '
+                                f'{(len(self.db.hist[hx]), self.mp.mem[hx])}', shape))
         return out
 
     def close(self):
@@ -206,8 +371,22 @@ class Real:
 
 def ev_line(e):
     if e[0] == 'NT':
-        return 'NT ' + ','.join(map(str, e[1]))
+        return f'NT {e[1]} ' + ','.join(map(str, e[2]))
     return ' '.join(str(x) for x in e)
+
+
+def parse_line(l):
+    w = l.split()
+    if w[0] == 'NT':
+        return ('NT', int(w[1]), [int(x) for x in w[2].split(',')] if len(w) > 2 else [])
+    return tuple([w[0]] + [int(x) for x in w[1:]])
+
+
+_SUPP = re.compile(r' suppressed [0-9,]*')
+
+
+def strip_ghost(line):
+    return _SUPP.sub('', line)
 
 
 def run_seq(evs, nsessions=2):
@@ -215,61 +394,161 @@ def run_seq(evs, nsessions=2):
     lines = [f'NEW {nsessions} {len(HASHXS)}']
     expect = [real.show()]
     viol = None
+    reached = set()
     try:
         for i, e in enumerate(evs):
             real.ev(e)
             lines.append(ev_line(e))
             expect.append(real.show())
+            if viol is None and real.hdr_not_seen:
+                viol = (i, real.hdr_not_seen, 'queryable')
             if viol is None and real.quiet():
                 st = real.stale()
                 if st:
-                    viol = (i, st[0])
+                    viol = (i, st[0][0], st[0][1])
+        if real.failed:
+            reached.add('refresh-raised')
+        for s in real.sessions:
+            if s.mempool_statuses:
+                reached.add('mempool_statuses')
     finally:
         real.close()
-    return lines, expect, viol
+    return lines, expect, viol, reached
 
+
+
+# The stale-copy schedule.  Session 0 is subscribed to 1 (a mempool tx, m=2) and to 0 (a mempool tx with
+# an unconfirmed parent, m=1); the cached history of 1 has been evicted.
+#  A = `NT 1` (height changed, nothing touched): its second loop over the copy {1: (0,2), 0: (0,1)}
+#  suspends on the history of 1;  the parent confirms (FL 0 2), the client re-subscribes 0 and is told
+#  (0,2);  a reorg orphans the parent again (FL 0 1);  A resumes: status (0,1) == its copy's value, so
+#  nothing is sent, but (0,1) is stored in mempool_statuses;  the reorg's own height-changing
+#  notification (RS, NT 1) then also finds "no change".  At rest the client holds (0,2), the status is (0,1).
+CORPUS_ABA = [('MP', 1, 2), ('MP', 0, 1), ('NT', 0, [0, 1]),
+              ('SUB', 0, 1), ('RD', 0), ('RF', 0), ('SUB', 0, 0), ('RD', 0), ('RF', 0),
+              ('EVICT', 1), ('ADV', 1), ('NT', 1, []), ('HD', 0), ('HF', 0),
+              ('FL', 0, 2), ('SUB', 0, 0), ('FL', 0, 1), ('RD', 0), ('RF', 0),
+              ('RS',), ('NT', 1, []), ('HD', 0), ('HF', 0)]
+
+_fix_probe = [None]
+
+
+def code_has_cmp_fix():
+    """Does the second loop of `_notify_inner` compare the new status with the value that is in
+    `mempool_statuses` when it is replaced (the proposed fix) or with the copy taken before the loop
+    (the pinned code)?  Probed by behaviour: the stale-copy schedule on the real classes."""
+    if _fix_probe[0] is None:
+        _l, _e, viol, _r = run_seq(CORPUS_ABA)
+        _fix_probe[0] = not (viol is not None and viol[2] == 'suppressed')
+    return _fix_probe[0]
+
+
+SETUP = [('MP', 0, 2), ('MP', 1, 1), ('NT', 0, [0, 1]), ('SUB', 0, 0), ('RD', 0), ('RF', 0),
+         ('SUB', 0, 1), ('RD', 0), ('RF', 0)]
 
 CORPUS = [
     # F5: subscribe whose read is in flight across the notification of the touching block
-    [('SUB', 0, 0), ('CH', 0), ('RD', 0), ('NT', [0]), ('RF', 0), ('RD', 0), ('RF', 0)],
-    [('SUB', 0, 0), ('RD', 0), ('CH', 0), ('NT', [0]), ('RF', 0), ('RD', 0), ('RF', 0)],
+    [('SUB', 0, 0), ('CH', 0), ('RD', 0), ('NT', 0, [0]), ('RF', 0), ('RD', 0), ('RF', 0)],
+    [('SUB', 0, 0), ('RD', 0), ('CH', 0), ('NT', 0, [0]), ('RF', 0), ('RD', 0), ('RF', 0)],
     # stale read cached after the notification (get_history)
-    [('GH', 0, 0), ('RD', 0), ('CH', 0), ('NT', [0]), ('RF', 0), ('RD', 0), ('RF', 0), ('SUB', 1, 0)],
-    # two notifications in flight: an older status must not be delivered after a newer one
+    [('GH', 0, 0), ('RD', 0), ('CH', 0), ('NT', 0, [0]), ('RF', 0), ('RD', 0), ('RF', 0), ('SUB', 1, 0)],
+    # F15: two notifications in flight: an older status must not be delivered after a newer one
     [('SUB', 0, 0), ('RD', 0), ('RF', 0), ('SUB', 0, 1), ('RD', 0), ('RF', 0),
-     ('CH', 0), ('CH', 1), ('NT', [0, 1]), ('RD', 0), ('RF', 0), ('CH', 0), ('NT', [0]), ('RD', 1), ('RF', 0),
+     ('CH', 0), ('CH', 1), ('NT', 0, [0, 1]), ('RD', 0), ('RF', 0), ('CH', 0), ('NT', 0, [0]), ('RD', 1), ('RF', 0),
      ('RD', 0), ('RF', 0), ('RD', 0), ('RF', 0)],
+    # seeded change C07-1: the child's flag goes 0 -> -1 when a reorg orphans the parent (m: 2 -> 1)
+    SETUP + [('BK',), ('RS',), ('FL', 0, 1), ('ADV', 5), ('NT', 1, []), ('HD', 0), ('HF', 0)],
+    # the forward direction: the parent confirms (m: 1 -> 2)
+    SETUP + [('ADV', 5), ('FL', 1, 2), ('NT', 1, []), ('HD', 0), ('HF', 0)],
+    # a flip whose recheck needs a history read (cache evicted), unsubscribe / close while it is in flight
+    SETUP + [('EVICT', 0), ('ADV', 5), ('FL', 0, 1), ('NT', 1, []), ('HD', 0), ('HF', 0), ('UNS', 0, 0), ('RD', 0), ('RF', 0),
+             ('SUB', 0, 0)],
+    SETUP + [('EVICT', 0), ('ADV', 5), ('FL', 0, 1), ('NT', 1, []), ('HD', 0), ('HF', 0), ('CLOSE', 0), ('RD', 0), ('RF', 0)],
+    # the cut of _notify_sessions: a cache hit and a subscribe between _notify_count += 1 and the invalidation
+    [('GH', 0, 0), ('RD', 0), ('RF', 0), ('CH', 0), ('ADV', 1), ('NT', 1, [0]), ('SUB', 0, 0), ('GH', 1, 0), ('HD', 0), ('HF', 0),
+     ('RD', 0), ('RF', 0)],
+    # F16: the DB is lowered while the header is read: retry at the lower height
+    [('HS', 0), ('ADV', 1), ('ADV', 2), ('NT', 2, []), ('BK',), ('RS',), ('HD', 0), ('HF', 0), ('HD', 0), ('HF', 0),
+     ('ADV', 3), ('NT', 2, []), ('HD', 0), ('HF', 0)],
+    # ... and raised when the DB is back at that height by the time the error arrives (notification lost)
+    [('SUB', 0, 0), ('RD', 0), ('RF', 0), ('ADV', 1), ('CH', 0), ('NT', 1, [0]), ('BK',), ('HD', 0), ('ADV', 2), ('HF', 0)],
+    # two refreshes completing out of order
+    [('HS', 0), ('ADV', 1), ('NT', 1, []), ('ADV', 2), ('NT', 2, []), ('HD', 0), ('HD', 0), ('HF', 1), ('HF', 0)],
+    CORPUS_ABA,
 ]
+
+
+def alphabets():
+    base = [('CH', 0), ('CH', 1), ('NT', 0, [0]), ('NT', 0, [0, 1]), ('SUB', 0, 0), ('SUB', 1, 0), ('SUB', 0, 1),
+            ('GH', 1, 0), ('RD', 0), ('RD', 1), ('RF', 0), ('RF', 1)]
+    flip = [('FL', 0, 1), ('FL', 0, 2), ('MP', 0, 0), ('ADV', 5), ('RS',), ('NT', 1, []), ('NT', 0, []), ('NT', 1, [0]),
+            ('HD', 0), ('HF', 0), ('RD', 0), ('RF', 0), ('UNS', 0, 0), ('SUB', 0, 0), ('EVICT', 0), ('CLOSE', 0)]
+    tip = [('HS', 0), ('ADV', 1), ('BK',), ('RS',), ('NT', 1, []), ('NT', 2, []), ('NT', 0, []), ('HD', 0), ('HD', 1),
+           ('HF', 0), ('HF', 1), ('CLOSE', 0)]
+    return base, flip, tip
 
 
 def run(tier, seed):
     res = SuiteResult('notifcache')
-    res.rule = ('case = event sequence (history change / notification / subscribe / get_history / worker read / read '
-                'completion) on the real SessionManager + sessions with a suspending fake DB; all sequences up to a '
-                'length bound over a small alphabet plus seeded longer ones, corpus of past witnesses first; '
-                'non-trivial = a notification happens while a read is in flight')
-    alphabet = [('CH', 0), ('CH', 1), ('NT', [0]), ('NT', [0, 1]), ('SUB', 0, 0), ('SUB', 1, 0), ('SUB', 0, 1),
-                ('GH', 1, 0), ('RD', 0), ('RD', 1), ('RF', 0), ('RF', 1)]
+    res.rule = ('case = event sequence (confirmed / mempool change, parent flip, block, back-out, reorg signal, '
+                'notification, subscribe / unsubscribe / headers.subscribe / get_history / close, cache eviction, '
+                'worker read and completion of history and header reads) on the real SessionManager + sessions with '
+                'a suspending fake DB and a fake mempool with real summaries; all sequences up to a length bound over '
+                'three small alphabets (plain; after a set-up with mempool statuses; tip) plus seeded longer ones, '
+                'corpus of past witnesses first; non-trivial = a notification happens while a read is in flight or a '
+                'flip is pending')
+    base, flip, tip = alphabets()
+    fixed = code_has_cmp_fix()
+    res.bump('code has the live-comparison fix', int(fixed))
     cases = [list(c) for c in CORPUS]
     depth = 3 if tier == 'quick' else 4
     for L in range(1, depth + 1):
-        for evs in itertools.product(alphabet, repeat=L):
+        for evs in itertools.product(base, repeat=L):
             cases.append(list(evs))
+    for L in range(1, (3 if tier == 'quick' else 4) + 1):
+        for evs in itertools.product(flip, repeat=L):
+            cases.append(SETUP + list(evs) + [('HD', 0), ('HF', 0)])
+    # around the stale-copy schedule: a second loop suspended on a history read, then flips, re-subscribes,
+    # notifications in every order
+    aba_prefix = CORPUS_ABA[:14]
+    aba = [('FL', 0, 2), ('FL', 0, 1), ('SUB', 0, 0), ('UNS', 0, 0), ('RD', 0), ('RF', 0), ('RS',), ('NT', 1, []),
+           ('HD', 0), ('HF', 0), ('MP', 0, 3)]
+    for L in range(1, (3 if tier == 'quick' else 4) + 1):
+        for evs in itertools.product(aba, repeat=L):
+            cases.append(aba_prefix + list(evs) + [('RD', 0), ('RF', 0), ('RS',), ('NT', 1, []), ('HD', 0), ('HF', 0),
+                                                   ('RD', 0), ('RF', 0)])
+    for L in range(1, (4 if tier == 'quick' else 5) + 1):
+        for evs in itertools.product(tip, repeat=L):
+            if tier == 'quick':
+                keep = L < 4 or (evs[0] == ('HS', 0) and evs[1][0] == 'ADV')
+            else:
+                keep = L < 5 or evs[0] == ('HS', 0)
+            if keep:
+                cases.append(list(evs))
     rng = rng_for(seed, 'notifcache')
-    for _ in range(400 if tier == 'quick' else 6000):
-        n = rng.randrange(6, 22)
-        evs = []
+    everything = base + flip + tip + [('MP', 1, 3), ('MP', 2, 1), ('FL', 1, 3), ('FL', 1, 4), ('CH', 2), ('UNS', 1, 0),
+                                      ('HS', 1), ('EVICT', 1), ('NT', 0, [0, 1, 2])]
+    for _ in range(300 if tier == 'quick' else 6000):
+        n = rng.randrange(6, 26)
+        evs = list(SETUP) if rng.random() < 0.5 else []
         for _i in range(n):
-            e = rng.choice(alphabet + [('RD', 0), ('RF', 0), ('RD', 0), ('RF', 0), ('CH', 2), ('NT', [0, 1, 2]),
-                                        ('SUB', rng.randrange(2), rng.randrange(3)), ('GH', rng.randrange(2), rng.randrange(3))])
+            e = rng.choice(everything + [('RD', 0), ('RF', 0), ('HD', 0), ('HF', 0)] * 3
+                           + [('SUB', rng.randrange(2), rng.randrange(3)), ('GH', rng.randrange(2), rng.randrange(3)),
+                              ('NT', rng.randrange(3), sorted(rng.sample(range(3), rng.randrange(3))))])
             evs.append(e)
-        # drain at the end so that the quiet-state oracle applies
-        evs += [('NT', [0, 1, 2])] + [('RD', 0), ('RF', 0)] * 8
+        # drain at the end so that the quiet-state oracle applies: the reorg signal and a notification at the
+        # tip height (what the environment owes), then every read
+        evs += [('RS',), ('NT', 99, [0, 1, 2])] + [('HD', 0), ('HF', 0)] * 4 + [('RD', 0), ('RF', 0)] * 8
         cases.append(evs)
     all_lines, all_expect, starts = [], [], []
-    nviol = 0
+    nviol = {}
+    reached = set()
+    quiet_judged = 0
     for evs in cases:
-        lines, expect, viol = run_seq(evs)
+        lines, expect, viol, r = run_seq(evs)
+        if fixed:
+            lines[0] += ' fix'
+        reached |= r
         starts.append((len(all_lines), evs))
         all_lines += lines
         all_expect += expect
@@ -282,17 +561,26 @@ def run(tier, seed):
                 waiting = max(0, waiting - 1)
             elif e[0] == 'NT' and waiting:
                 inflight = True
+            elif e[0] == 'FL':
+                inflight = True
         res.note_case(';'.join(ev_line(e) for e in evs), nontrivial=inflight)
-        if viol is not None and nviol < 3:
-            nviol += 1
-            res.violations.append({'suite': 'notifcache', 'clause': 'stale status or cache at rest',
-                                   'detail': f'after event {viol[0]}: {viol[1]}',
-                                   'events': [ev_line(e) for e in evs[:viol[0] + 1]]})
+        if viol is not None and nviol.get(viol[2], 0) < 3:       # at most 3 per shape: no crowding out
+            nviol[viol[2]] = nviol.get(viol[2], 0) + 1
+            v = {'suite': 'notifcache', 'clause': 'stale status, cache or tip at rest'
+                 if viol[2] != 'queryable' else 'header sent that the DB never held',
+                 'shape': viol[2], 'detail': f'after event {viol[0]}: {viol[1]}',
+                 'events': [ev_line(e) for e in evs[:viol[0] + 1]]}
+            if viol[2] == 'suppressed' and known_id():
+                v['tags'] = [known_id()]        # the shape of the recorded stale-copy finding
+            res.violations.append(v)
     res.bump('sequences', len(cases))
+    for want in ('mempool_statuses', 'refresh-raised'):
+        if want not in reached:
+            res.harness_errors.append(f'notifcache: no case reached {want}')
     got = run_evdrv('system', all_lines)
     bad = 0
     for i, (e, g) in enumerate(zip(all_expect, got)):
-        if e != g:
+        if e != strip_ghost(g):
             k = max(j for j, (s, _e) in enumerate(starts) if s <= i)
             s, evs = starts[k]
             res.disagreements.append({'suite': 'notifcache', 'events': [ev_line(x) for x in evs[:i - s]],
@@ -300,20 +588,166 @@ def run(tier, seed):
             bad += 1
             if bad >= 3:
                 break
+    env_check(res, tier, seed)
     res.sample({'events': [ev_line(e) for e in CORPUS[0]], 'note': 'the F5 interleaving'})
+    res.sample({'events': [ev_line(e) for e in CORPUS[4]], 'note': 'the reorg that orphans a parent (seeded change C07-1)'})
     res.exhaustive = True
     return res
 
 
+def env_check(res, tier, seed, only=None):
+    """The environment assumptions of the C07 theorems, monitored on the REAL server stack (the
+    machinery of suite `system`: real BlockProcessor / DB / MemPool / Notifications / SessionManager /
+    sessions against the simulated daemon, seeded virtual-time scheduler):
+      E-flip  a script hash whose mempool summaries (tx hash, has_unconfirmed_inputs) changed during a
+              mempool refresh without being in the touched set handed to on_mempool (a parent flip) is
+              followed, before the stack is quiescent, by a _notify_sessions call with height_changed;
+      E-tip   when a _notify_sessions call with height_changed starts, every _refresh_hsub_results still
+              in flight aims at the DB's current height on the DB's current chain.
+    """
+    if os.environ.get('PYTHONHASHSEED') != '0':
+        # the real code iterates sets of bytes (hash-randomised): run the histories in a child process with a
+        # fixed hash seed so that the monitored schedules are the same on every run
+        import json
+        import subprocess
+        import sys
+        from harness.common import VERIF, REPO
+        # (os.environ was replaced by make_env: hand the repository under test over explicitly)
+        env = dict(os.environ, PYTHONHASHSEED='0', VERIF_REPO=REPO)
+        proc = subprocess.run([sys.executable, '-c',
+                               'import sys, json; sys.path.insert(0, sys.argv[1]); '
+                               'from harness.suites import notifcache as nc; from harness.common import SuiteResult; '
+                               'r = SuiteResult("notifcache"); '
+                               'nc.env_check(r, sys.argv[2], int(sys.argv[3]), json.loads(sys.argv[4])); '
+                               'print("ENVCHECK " + json.dumps([r.evaluations, sorted(x.hex() for x in r.nontrivial), r.stats, '
+                               'r.violations, r.harness_errors], default=str))',
+                               VERIF, tier, str(seed), json.dumps(only)],
+                              env=env, stdout=subprocess.PIPE, stderr=subprocess.PIPE, timeout=3000)
+        lines = [l for l in proc.stdout.decode().splitlines() if l.startswith('ENVCHECK ')]
+        if proc.returncode != 0 or not lines:
+            # the real stack could not be driven against the current source: as check.py treats a suite that
+            # raises, the correspondence no longer checks
+            res.disagreements.append({'suite': 'notifcache', 'where': 'env_check could not be run against the current source',
+                                      'traceback': proc.stderr.decode()[-1500:]})
+            return
+        ev, nontriv, stats, viols, herrs = json.loads(lines[-1][len('ENVCHECK '):])
+        res.evaluations += ev
+        res.nontrivial |= {bytes.fromhex(x) for x in nontriv}
+        for k, v in stats.items():
+            res.bump(k, v)
+        res.violations += viols
+        res.harness_errors += herrs
+        return
+    from harness.suites import system as sysm
+    import electrumx.server.session as sessmod
+    import electrumx.server.mempool as mpmod
+    import electrumx.server.controller as ctlmod
+    mon = {}
+
+    def reset():
+        mon.update(mp=None, snap={}, flipped=set(), refreshes=[], bad_tip=[], bad_flip=[])
+
+    def snapshot():
+        mp = mon['mp']
+        return {hx: frozenset((h, any(p in mp.txs for p, _i in mp.txs[h].prevouts)) for h in hs)
+                for hx, hs in mp.hashXs.items()}
+    orig_init, orig_om = mpmod.MemPool.__init__, ctlmod.Notifications.on_mempool
+    orig_ns, orig_rf = sessmod.SessionManager._notify_sessions, sessmod.SessionManager._refresh_hsub_results
+    orig_judge = sysm.History.judge
+
+    def mp_init(self, *a, **kw):
+        orig_init(self, *a, **kw)
+        mon['mp'] = self
+
+    async def on_mempool(self, touched, height):
+        new = snapshot()
+        old = mon['snap']
+        flips = {hx for hx in set(new) | set(old) if new.get(hx) != old.get(hx) and hx not in touched}
+        if flips:
+            res.bump('env: parent flips seen on the real stack', len(flips))
+        mon['flipped'] |= flips
+        mon['snap'] = new
+        return await orig_om(self, touched, height)
+
+    async def notify_sessions(self, height, touched):
+        hc = height != self.notified_height or self._reorg_count != self._notified_reorg_count
+        if hc:
+            if mon['flipped']:
+                res.bump('env: flips taken over by a height-changing notification', len(mon['flipped']))
+            mon['flipped'] = set()
+            if mon['refreshes']:
+                res.bump('env: height-changing notification started while a header refresh is in flight')
+            for r in mon['refreshes']:
+                if r['tip'] != self.db.state.tip or r['target'] != self.db.state.height:
+                    mon['bad_tip'].append(f'_notify_sessions({height}) started at DB height {self.db.state.height} while a '
+                                          f'refresh aiming at height {r["target"]} of another chain state is in flight')
+        return await orig_ns(self, height, touched)
+
+    async def refresh(self, height):
+        r = {'target': min(height, self.db.state.height), 'tip': self.db.state.tip}
+        mon['refreshes'].append(r)
+        try:
+            return await orig_rf(self, height)
+        finally:
+            mon['refreshes'].remove(r)
+
+    def judge(self, phase):
+        if self.world.quiescent() and mon['flipped'] and not mon['refreshes']:
+            mon['bad_flip'].append(f'phase {phase}: quiescent, but {len(mon["flipped"])} parent flip(s) were not followed '
+                                   f'by a height-changing notification')
+        return orig_judge(self, phase)
+    n = 300 if tier == 'quick' else 3000
+    try:
+        mpmod.MemPool.__init__ = mp_init
+        ctlmod.Notifications.on_mempool = on_mempool
+        sessmod.SessionManager._notify_sessions = notify_sessions
+        sessmod.SessionManager._refresh_hsub_results = refresh
+        sysm.History.judge = judge
+        for idx in (range(n) if only is None else only):
+            reset()
+            h = sysm.History(res, seed, 1000 + idx, tier, {'converge'})
+            fails = h.run()
+            res.note_case(f'env history {seed} {idx} {tier}', nontrivial=True)
+            for kind, msgs in (('E-tip', mon['bad_tip']), ('E-flip', mon['bad_flip'])):
+                if msgs and len([v for v in res.violations if v.get('shape') == kind]) < 2:
+                    res.violations.append({'suite': 'notifcache', 'clause': f'environment assumption {kind} violated on the real stack',
+                                           'shape': kind, 'detail': msgs[0], 'env_history': [seed, idx, tier],
+                                           'events': h.events[-40:]})
+            real = [f for f in fails if f[0] not in ('harness',)]
+            if real:
+                res.bump('env: histories on which the end-to-end oracle of suite system failed')
+    finally:
+        mpmod.MemPool.__init__ = orig_init
+        ctlmod.Notifications.on_mempool = orig_om
+        sessmod.SessionManager._notify_sessions = orig_ns
+        sessmod.SessionManager._refresh_hsub_results = orig_rf
+        sysm.History.judge = orig_judge
+    res.bump('env: real-stack histories monitored', n)
+    if not res.stats.get('env: parent flips seen on the real stack') and tier != 'quick':
+        res.harness_errors.append('notifcache env_check: no parent flip occurred on the real stack')
+
+
+def known_id():
+    """id of the recorded stale-copy finding (known_findings.json), if it is recorded"""
+    import json
+    from harness.common import VERIF
+    try:
+        for k in json.load(open(os.path.join(VERIF, 'known_findings.json'))).get('findings', []):
+            if k.get('suite') == 'notifcache' and k.get('kind') == 'suppressed' and 'fixed' not in k:
+                return k.get('id')
+    except OSError:
+        pass
+    return None
+
+
 def replay(case):
-    evs = []
-    for l in case['events']:
-        w = l.split()
-        if w[0] == 'NT':
-            evs.append(('NT', [int(x) for x in w[1].split(',')] if len(w) > 1 else []))
-        else:
-            evs.append(tuple([w[0]] + [int(x) for x in w[1:]]))
-    _l, _e, viol = run_seq(evs)
+    if 'env_history' in case:
+        seed, idx, tier = case['env_history']
+        r2 = SuiteResult('notifcache')
+        env_check(r2, tier, seed, only=[idx])        # re-run the one monitored history
+        return [v['detail'] for v in r2.violations]
+    evs = [parse_line(l) for l in case['events']]
+    _l, _e, viol, _r = run_seq(evs)
     return [f'after event {viol[0]}: {viol[1]}'] if viol else []
 
 
@@ -322,4 +756,6 @@ def known_reproduces(finding):
 
 
 def matches_known(violation, finding):
-    return False
+    """The stale-copy finding: the status computed last is current and stored, but was never sent."""
+    return finding.get('kind') == 'suppressed' and violation.get('suite') == 'notifcache' \
+        and violation.get('shape') == 'suppressed'
